@@ -314,7 +314,7 @@ func c20World(t *testing.T, r *simcore.Run) any {
 
 	// ---- the client, wired as the service wires it
 	c := &client.IPClient{Log: quietLog()}
-	Root.ConfigureIPClientNTS(c, fmt.Sprintf("%s:%d", keHost, kePort), false, quietLog())
+	configureIPClientNTS(c, fmt.Sprintf("%s:%d", keHost, kePort), quietLog())
 	c.Auth.NTSKEFetcher.TLSConfig.RootCAs = pool
 	_ = x509.NewCertPool
 
